@@ -418,8 +418,10 @@ def write_evidence(check, prop: str, tier: str, seed: int, agg: dict, nviol: int
         cov.update(extra)
     ev = {"property_id": prop, "tier": tier, "seed": seed, "level": check.LEVEL, "coverage": cov,
           "assumptions": check.ASSUMPTIONS, "wall_s": round(agg["wall"], 2), "violations": nviol}
-    os.makedirs(os.path.join(VERIF, "evidence"), exist_ok=True)
-    with open(os.path.join(VERIF, "evidence", "%s.json" % prop), "w") as f:
+    # evidence describes /repo itself; runs against a scratch copy (mutants, seeded changes) never overwrite it
+    evdir = os.path.join(VERIF, "evidence") if os.path.realpath(REPO) == "/repo" else os.path.join(VERIF, "scratch", "evidence-other-tree")
+    os.makedirs(evdir, exist_ok=True)
+    with open(os.path.join(evdir, "%s.json" % prop), "w") as f:
         json.dump(ev, f, indent=1, sort_keys=True, default=str)
         f.write("\n")
 
